@@ -1,3 +1,4 @@
+// repaired by e98551f (F31); both helper traits of the original report are in scope at once
 // demo2 -- C13 (hygiene): generated `Debug` code uses method-call syntax (`.finish()`, `.field(..)`), which is
 // resolved against the traits that are in scope at the use site
 //
@@ -47,12 +48,8 @@ mod ext {
     }
     impl<T> Field for T {}
 }
-#[cfg(not(any(control, runtime)))]
 #[allow(unused_imports)]
-use ext::Finish;
-#[cfg(runtime)]
-#[allow(unused_imports)]
-use ext::Field;
+use ext::{Field, Finish};
 
 #[derive_ex(Debug)]
 struct Unit;
